@@ -3,17 +3,21 @@ from lib import compose_message, tape_from, unhex
 
 
 def ship_tape(v):
-    """Tape for a ship-harness violation: the symbolic frame 'msg' is replaced by real bytes whose
+    """Tape for a ship-harness violation: every symbolic frame ('msg' draws) is replaced by real bytes whose
     parse (by the real encoding/json after the real JsonFromEEBUSJson) equals the model."""
-    overrides = {}
+    docs = v.get("json_docs") or []
+    contains = v.get("contains") or []
     msg_draws = [d for d in v.get("draws") or [] if d["name"] == "msg"]
-    if msg_draws:
-        raw = unhex(msg_draws[-1].get("value", ""))
+    single = len(msg_draws) <= 1
+    overrides = {}
+    for d in msg_draws:
+        term = d.get("term") or "msg"
+        raw = unhex(d.get("value", ""))
         header = raw[0] if len(raw) > 0 else 1
-        docs = v.get("json_docs") or []
-        contains = v.get("contains") or []
-        if len(raw) < 2 and not docs:
-            overrides["msg"] = raw
+        mydocs = [x for x in docs if single or x.get("root") == term]
+        mycont = [x for x in contains if single or x.get("root") == term]
+        if len(raw) < 2 and not mydocs:
+            overrides[term] = raw
         else:
-            overrides["msg"] = compose_message(header, docs, contains)
-    return tape_from(v, overrides)
+            overrides[term] = compose_message(header, mydocs, mycont)
+    return tape_from(v, overrides, by_term=True)
